@@ -377,4 +377,69 @@ theorem bwf_step' {s : Store} (h : BWF s) (op : Op) : BWF (step true s op).1 := 
       | del v => exact bwf_delChildren h v
       | sort v sw => exact bwf_sortChildren h v sw
 
+/-- dropping the rejected calls of a history does not change the final store (C02 + invariant) -/
+theorem run_acceptedOps : ∀ (s : Store) (ops : List Op), BWF s →
+    run true s (acceptedOps s ops) = run true s ops
+  | _, [], _ => rfl
+  | s, op :: ops, h => by
+    simp only [acceptedOps]
+    split
+    · simp only [run, List.foldl_cons]
+      exact run_acceptedOps _ ops (bwf_step' h op)
+    · rename_i hno
+      have hr : (step true s op).2 = .rej := by
+        cases hh : (step true s op).2 with
+        | ok => exact absurd hh hno
+        | rej => rfl
+      simp only [run, List.foldl_cons]
+      rw [step_rej_id h op hr]
+      exact run_acceptedOps s ops h
+
+/-- no operation creates or destroys nodes -/
+theorem step_n {s : Store} (h : BWF s) (op : Op) : (step true s op).1.n = s.n := by
+  cases hout : (step true s op).2 with
+  | rej => rw [step_rej_id h op hout]
+  | ok =>
+    unfold step at hout ⊢
+    by_cases hsub : s.n ≤ op.subject
+    · simp [hsub]
+    · simp only [hsub, if_false] at hout ⊢
+      have hch : ∀ f v l, (setChildren true f s v l).2 = .ok → (setChildren true f s v l).1.n = s.n := by
+        intro f v l hok
+        obtain ⟨c1, c2, _, hval, _, heq⟩ := setChildren_ok h hok
+        obtain ⟨t, ht, en, _⟩ := childrenTry_spec h f v c1 c2 hval.distinct
+        rw [heq, ht]; exact en
+      cases op with
+      | parent v np f =>
+        obtain ⟨_, _, _, h4, heq⟩ := setParent_ok hout
+        rw [heq]; exact (parentTry_spec h f v np h4).1
+      | children v l f =>
+        cases l with
+        | none => rfl
+        | some l => exact hch f v l hout
+      | left v x f =>
+        simp only [setLeft] at hout ⊢
+        cases hs : slotAt? s v 1 with
+        | none => rfl
+        | some r => simp only [hs] at hout ⊢; exact hch f v _ hout
+      | right v x f =>
+        simp only [setRight] at hout ⊢
+        cases hs : slotAt? s v 0 with
+        | none => rfl
+        | some r => simp only [hs] at hout ⊢; exact hch f v _ hout
+      | del v =>
+        obtain ⟨s1, hd, en, _⟩ := delChildrenBody_spec h v
+        simp [delChildren, hd, en]
+      | sort v sw => simp only [sortChildren]; split <;> rfl
+
+theorem run_n {s : Store} (h : BWF s) : ∀ ops : List Op, (run true s ops).n = s.n := by
+  intro ops
+  induction ops generalizing s with
+  | nil => rfl
+  | cons op ops ih =>
+    simp only [run, List.foldl_cons]
+    have := ih (bwf_step' h op)
+    simp only [run] at this
+    rw [this, step_n h op]
+
 end BinStore
